@@ -35,7 +35,7 @@ CFG = Cfg(max_depth=3, theories={"bool", "int", "real", "bv", "arr", "uf", "quan
 
 FAIL_KINDS = ["construct", "substitute", "cnf-quantified", "qelim-nonbool", "size-measure", "get-symbol", "hr-parse",
               "smtlib-parse", "array-nonconst-key", "fi-free-vars", "custom-operator", "model-text", "malformed-declaration",
-              "with-block-raises", "generic-solver-redefinition", "command-generator", "construct-equal-key", "simplify-custom-walker"]
+              "with-block-raises", "generic-solver-redefinition", "command-generator", "construct-equal-key", "empty-preference-list", "simplify-custom-walker"]
 DECL_NAME = "c15 declared name"
 GENERIC_NAME = "c15-generic-solver"
 
@@ -68,6 +68,7 @@ class World(object):
         from pysmt.smtlib.printers import SmtDagPrinter
         self.dagprinter = SmtDagPrinter(StringIO())          # a long-lived printer object
         self.generic = False
+        self.factory_used = False
 
     def ensure_cg_declared(self):
         """The symbol that the command-generator probes talk about is declared (through the generator interface, which
@@ -168,6 +169,9 @@ def do_fail(world, fail):
                     world.parser.get_assignment_list(StringIO(text))
             elif kind == "malformed-declaration":
                 world.parser.get_script(StringIO(fail[1]))
+            elif kind == "empty-preference-list":
+                world.factory_used = True
+                getattr(env.factory, fail[1])([])
             elif kind == "construct-equal-key":
                 # a rejected construction whose (operator, arguments, parameters) compare EQUAL to those of a valid one
                 # (8.0 == 8): the valid one must still be constructible afterwards
@@ -294,11 +298,16 @@ def gen_fail(g, probe, rel):
         return ("generic-solver-redefinition",)
     if kind == "construct-equal-key":
         return ("construct-equal-key", g.choice([0, 1, 5]), g.choice([3, 8]))
+    if kind == "empty-preference-list":
+        return ("empty-preference-list", g.choice(["set_solver_preference_list", "set_qelim_preference_list",
+                                                   "set_interpolation_preference_list", "set_optimizer_preference_list"]))
     if kind == "command-generator":
         return ("command-generator", g.choice([
             "(assert (let ((cgx 5)) (frob cgx)))", "(assert (let ((cgy 1) (cgx 5) (cgz (frob 1))) (= cgx cgy)))",
             "(assert (forall ((cgx Bool)) (and cgx 1)))", "(define-fun cgf ((cgx Bool)) Bool (and cgx 1))",
-            "(assert (exists ((cgx Real)) (let ((cgw cgx)) (< cgw true))))", "(assert (let ((cgx 7)) (= cgx 7)"]) + "\n")
+            "(assert (exists ((cgx Real)) (let ((cgw cgx)) (< cgw true))))", "(assert (let ((cgx 7)) (= cgx 7)",
+            # the let re-binds the declared cgx (bound only after all bindings are read) and fails at a later binding
+            "(assert (let ((cgx 1) (cgq (+ true 1))) (> cgx cgq)))", "(assert (let ((cgq 2) (cgx 1) (cgr (frob))) (> cgx cgq)))"]) + "\n")
     if kind == "custom-operator":
         bf = f if t == BOOL else (probe if reftype_or_none(probe) == BOOL else const(BOOL, True))
         return ("custom-operator", g.choice(CUSTOM_SERVICES), bf)
@@ -345,6 +354,11 @@ def _check_history(run, probe, history, probes, ptexts):
                 nfail += 1
                 kinds.append(item[1][0])
                 run.cls("injected:" + item[1][0])
+                # made again right away, the call fails again (had the first never been made, it would have failed)
+                if item[1][0] not in ("with-block-raises",) and not do_fail(A, item[1]):
+                    run.fail({"subcheck": "trace:repeat-differs", "kind": item[1][0], "when": "at-once"},
+                             {"probe": probe, "history": history, "probes": [], "texts": [], "failing": item[1]},
+                             "the call %s raised, and returned when it was made again at once" % (repr(item[1])[:300],))
             else:
                 do_fail(Bw, item[1])       # it did not fail: an ordinary call, the twin runs it too
         else:
@@ -390,6 +404,15 @@ def _check_history(run, probe, history, probes, ptexts):
             run.fail({"subcheck": "trace:result-differs", "service": "command-generator", "after": "command-generator"}, case,
                      "(assert (> cgx (- cgx))) read by the long-lived parser's command generator: %s after failing commands, %s on the twin" % (
                          outs[0], outs[1]))
+    # the preference lists of the factory
+    if A.factory_used:
+        if A.generic:
+            Bw.ensure_generic_solver()      # (a registration that succeeded in the history is part of both worlds)
+        outs = [repr(sorted((k, list(v)) for k, v in W.env.factory.preferences.items())) for W in (A, Bw)]
+        run.cls("probe:factory-preferences")
+        if outs[0] != outs[1]:
+            run.fail({"subcheck": "trace:result-differs", "service": "factory-preferences", "after": "empty-preference-list"}, case,
+                     "factory.preferences: %s after the rejected empty preference list, %s on the twin" % (outs[0][:300], outs[1][:300]))
     # constants whose key equals the key of a rejected construction
     if "construct-equal-key" in kinds:
         outs = []
